@@ -38,6 +38,7 @@ Fixpoint ok_op (x m : nat) (o : op) {struct o} : bool :=
   match o with
   | OLock m' body => (Nat.eqb m' m && incr_body x body) || all body
   | OCatch body => all body
+  | OBlock _ _ body => all body
   | OLoad x' => negb (Nat.eqb x' x)
   | OStore x' _ => negb (Nat.eqb x' x)
   | _ => true
@@ -52,20 +53,23 @@ Fixpoint incs_op (x : nat) (o : op) {struct o} : Z :=
   | OStore x' (ZAccPlus k) => if Nat.eqb x' x then k else 0%Z
   | OLock _ body => sum body
   | OCatch body => sum body
+  | OBlock _ _ body => sum body
   | _ => 0%Z
   end.
 Definition incs_ops (x : nat) (l : list op) : Z := fold_right (fun o a => (incs_op x o + a)%Z) 0%Z l.
 Definition total_incs (p : prog) (x : nat) : Z := fold_right (fun l a => (incs_ops x l + a)%Z) 0%Z (p_code p).
 
-(* no operation of the program can raise an error: no (error ...), no channel-close (hence no push on /
-   close of a closed channel) *)
+(* no operation of the program can raise an error or leave code unexecuted: no (error ...), no channel-close
+   (hence no push on / close of a closed channel), no return-from / go *)
 Fixpoint nofail_op (o : op) {struct o} : bool :=
   let fix all (l : list op) : bool := match l with [] => true | o' :: l' => nofail_op o' && all l' end in
   match o with
   | OFail => false
   | OClose _ => false
+  | OExit _ _ => false            (* skips the rest of the enclosing forms, or is a control-error *)
   | OLock _ body => all body
   | OCatch body => all body
+  | OBlock _ _ body => all body
   | _ => true
   end.
 Definition nofail_ops (l : list op) : bool := forallb nofail_op l.
